@@ -62,7 +62,7 @@ func specVbyte(v uint64, k int) byte {
 // (bytes at+k for k >= from).
 func specVarintAt(r []byte, at int, v uint64) bool { return specVarintAtFrom(r, at, v, 0) }
 
-//@ unfold 10
+// @ unfold 10
 func specVarintAtFrom(r []byte, at int, v uint64, k int) bool {
 	if k >= specVlen(v) || k >= 10 {
 		return true
@@ -75,7 +75,7 @@ func specVarintAtFrom(r []byte, at int, v uint64, k int) bool {
 // or 1. It returns the length, or the error code of the first defect.
 func specVarintLen(b []byte) int { return specVarintScan(b, 0) }
 
-//@ unfold 10
+// @ unfold 10
 func specVarintScan(b []byte, i int) int {
 	if i >= len(b) {
 		return errCodeTruncated
@@ -96,7 +96,7 @@ func specVarintScan(b []byte, i int) int {
 // the sum of the 7-bit groups, least significant first.
 func specVarintVal(b []byte, n int) uint64 { return specVarintSum(b, n, 0) }
 
-//@ unfold 10
+// @ unfold 10
 func specVarintSum(b []byte, n, i int) uint64 {
 	if i >= n || i >= 10 {
 		return 0
@@ -135,43 +135,43 @@ func specBytesLen(b []byte) int {
 
 // ---------------------------------------------------------------- contracts: sizes and scalar codecs
 
-//@ props C01
+// @ props C01
 func contract_SizeVarint(v uint64) (n int) {
 	ensures(n == specVlen(v))
 	return
 }
 
-//@ props C01
+// @ props C01
 func contract_SizeFixed32() (n int) {
 	ensures(n == 4)
 	return
 }
 
-//@ props C01
+// @ props C01
 func contract_SizeFixed64() (n int) {
 	ensures(n == 8)
 	return
 }
 
-//@ props C01
+// @ props C01
 func contract_SizeBytes(n int) (r int) {
 	ensures(r == specVlen(uint64(n))+n)
 	return
 }
 
-//@ props C01
+// @ props C01
 func contract_SizeTag(num Number) (r int) {
 	ensures(r == specVlen(uint64(num)<<3))
 	return
 }
 
-//@ props C01
+// @ props C01
 func contract_SizeGroup(num Number, n int) (r int) {
 	ensures(r == n+specVlen(uint64(num)<<3))
 	return
 }
 
-//@ props C01
+// @ props C01
 func contract_EncodeZigZag(x int64) (u uint64) {
 	// zig-zag: 2x for x >= 0, -2x-1 for x < 0
 	ensures(imp(x >= 0, u == uint64(x)*2))
@@ -179,40 +179,40 @@ func contract_EncodeZigZag(x int64) (u uint64) {
 	return
 }
 
-//@ props C01
+// @ props C01
 func contract_DecodeZigZag(u uint64) (x int64) {
 	ensures(imp(u%2 == 0, x == int64(u/2)))
 	ensures(imp(u%2 == 1, x == -int64(u/2)-1))
 	return
 }
 
-//@ props C01
+// @ props C01
 func contract_EncodeBool(x bool) (u uint64) {
 	ensures(imp(x, u == 1))
 	ensures(imp(!x, u == 0))
 	return
 }
 
-//@ props C01
+// @ props C01
 func contract_DecodeBool(u uint64) (x bool) {
 	ensures(x == (u != 0))
 	return
 }
 
-//@ props C01 C02
+// @ props C01 C02
 func contract_EncodeTag(num Number, typ Type) (x uint64) {
 	ensures(x == uint64(num)<<3|uint64(typ&7))
 	return
 }
 
-//@ props C01 C02
+// @ props C01 C02
 func contract_DecodeTag(x uint64) (num Number, typ Type) {
 	ensures(imp(x>>3 <= 1<<31-1, num == Number(x>>3) && typ == Type(x&7)))
 	ensures(imp(x>>3 > 1<<31-1, num == -1 && typ == 0))
 	return
 }
 
-//@ props C02
+// @ props C02
 func contract_Number_IsValid(n Number) (ok bool) {
 	ensures(ok == (1 <= n && n <= 1<<29-1))
 	return
@@ -220,8 +220,8 @@ func contract_Number_IsValid(n Number) (ok bool) {
 
 // ---------------------------------------------------------------- contracts: append
 
-//@ props C01
-//@ split
+// @ props C01
+// @ split
 func contract_AppendVarint(b []byte, v uint64) (r []byte) {
 	modifiesTail(b)
 	ensures(freshSlice(r) || sameArray(r, b)) // extended in place, or reallocated
@@ -235,7 +235,7 @@ func contract_AppendVarint(b []byte, v uint64) (r []byte) {
 	return
 }
 
-//@ props C01
+// @ props C01
 func contract_AppendFixed32(b []byte, v uint32) (r []byte) {
 	modifiesTail(b)
 	ensures(freshSlice(r) || sameArray(r, b)) // extended in place, or reallocated
@@ -245,7 +245,7 @@ func contract_AppendFixed32(b []byte, v uint32) (r []byte) {
 	return
 }
 
-//@ props C01
+// @ props C01
 func contract_AppendFixed64(b []byte, v uint64) (r []byte) {
 	modifiesTail(b)
 	ensures(freshSlice(r) || sameArray(r, b)) // extended in place, or reallocated
@@ -255,7 +255,7 @@ func contract_AppendFixed64(b []byte, v uint64) (r []byte) {
 	return
 }
 
-//@ props C01
+// @ props C01
 func contract_AppendTag(b []byte, num Number, typ Type) (r []byte) {
 	modifiesTail(b)
 	ensures(freshSlice(r) || sameArray(r, b)) // extended in place, or reallocated
@@ -265,8 +265,8 @@ func contract_AppendTag(b []byte, num Number, typ Type) (r []byte) {
 	return
 }
 
-//@ props C01
-//@ mode int
+// @ props C01
+// @ mode int
 func contract_AppendBytes(b []byte, v []byte) (r []byte) {
 	requires(disjointFromTail(v, b)) // the payload must not live in the buffer's spare capacity
 	modifiesTail(b)
@@ -278,8 +278,8 @@ func contract_AppendBytes(b []byte, v []byte) (r []byte) {
 	return
 }
 
-//@ props C01
-//@ mode int
+// @ props C01
+// @ mode int
 func contract_AppendString(b []byte, v string) (r []byte) {
 	modifiesTail(b)
 	ensures(freshSlice(r) || sameArray(r, b)) // extended in place, or reallocated
@@ -290,8 +290,8 @@ func contract_AppendString(b []byte, v string) (r []byte) {
 	return
 }
 
-//@ props C01
-//@ mode int
+// @ props C01
+// @ mode int
 func contract_AppendGroup(b []byte, num Number, v []byte) (r []byte) {
 	requires(disjointFromTail(v, b))
 	modifiesTail(b)
@@ -305,8 +305,8 @@ func contract_AppendGroup(b []byte, num Number, v []byte) (r []byte) {
 
 // ---------------------------------------------------------------- contracts: consume
 
-//@ props C01 C02
-//@ split
+// @ props C01 C02
+// @ split
 func contract_ConsumeVarint(b []byte) (v uint64, n int) {
 	ensures(n == specVarintLen(b))
 	ensures(imp(n > 0, v == specVarintVal(b, n)))
@@ -319,14 +319,14 @@ func contract_ConsumeVarint(b []byte) (v uint64, n int) {
 	return
 }
 
-//@ props C01 C02
+// @ props C01 C02
 func contract_ConsumeFixed32(b []byte) (v uint32, n int) {
 	ensures(imp(len(b) < 4, n == errCodeTruncated && v == 0))
 	ensures(imp(len(b) >= 4, n == 4 && v == uint32(b[0])+uint32(b[1])<<8+uint32(b[2])<<16+uint32(b[3])<<24))
 	return
 }
 
-//@ props C01 C02
+// @ props C01 C02
 func contract_ConsumeFixed64(b []byte) (v uint64, n int) {
 	ensures(imp(len(b) < 8, n == errCodeTruncated && v == 0))
 	ensures(imp(len(b) >= 8, n == 8 && v == uint64(b[0])+uint64(b[1])<<8+uint64(b[2])<<16+uint64(b[3])<<24+
@@ -334,7 +334,7 @@ func contract_ConsumeFixed64(b []byte) (v uint64, n int) {
 	return
 }
 
-//@ props C01 C02
+// @ props C01 C02
 func contract_ConsumeTag(b []byte) (num Number, typ Type, n int) {
 	ensures(n == specTagLen(b))
 	ensures(imp(n > 0, num == Number(specVarintVal(b, n)>>3) && typ == Type(specVarintVal(b, n)&7)))
@@ -349,8 +349,8 @@ func contract_ConsumeTag(b []byte) (num Number, typ Type, n int) {
 	return
 }
 
-//@ props C01 C02
-//@ mode int
+// @ props C01 C02
+// @ mode int
 func contract_ConsumeBytes(b []byte) (v []byte, n int) {
 	ensures(n == specBytesLen(b))
 	ensures(imp(n < 0, v == nil))
@@ -361,8 +361,8 @@ func contract_ConsumeBytes(b []byte) (v []byte, n int) {
 	return
 }
 
-//@ props C01 C02
-//@ mode int
+// @ props C01 C02
+// @ mode int
 func contract_ConsumeString(b []byte) (v string, n int) {
 	ensures(n == specBytesLen(b))
 	ensures(imp(n < 0, v == ""))
@@ -371,7 +371,7 @@ func contract_ConsumeString(b []byte) (v string, n int) {
 	return
 }
 
-//@ props C02
+// @ props C02
 func contract_ParseError(n int) (err error) {
 	ensures(iff(err == nil, n >= 0))
 	ensures(imp(n == errCodeTruncated, err == io.ErrUnexpectedEOF))
@@ -385,19 +385,19 @@ func contract_ParseError(n int) (err error) {
 
 // ---------------------------------------------------------------- lemmas: round trips (C01)
 
-//@ props C01
+// @ props C01
 func lemma_ZigZagRoundTrip(x int64, u uint64) {
 	ensures(DecodeZigZag(EncodeZigZag(x)) == x)
 	ensures(EncodeZigZag(DecodeZigZag(u)) == u)
 }
 
-//@ props C01
+// @ props C01
 func lemma_BoolRoundTrip(x bool, u uint64) {
 	ensures(DecodeBool(EncodeBool(x)) == x)
 	ensures(imp(u <= 1, EncodeBool(DecodeBool(u)) == u))
 }
 
-//@ props C01
+// @ props C01
 func lemma_TagRoundTrip(num Number, typ Type, x uint64) {
 	if 0 <= num && 0 <= typ && typ <= 7 {
 		n2, t2 := DecodeTag(EncodeTag(num, typ))
@@ -409,8 +409,8 @@ func lemma_TagRoundTrip(num Number, typ Type, x uint64) {
 	}
 }
 
-//@ props C01
-//@ mode int
+// @ props C01
+// @ mode int
 func lemma_VarintRoundTrip(b []byte, v uint64) {
 	r := AppendVarint(b, v)
 	lemma_SpecVarintInverse(r[len(b):], v)
@@ -420,21 +420,21 @@ func lemma_VarintRoundTrip(b []byte, v uint64) {
 	ensures(w == v)
 }
 
-//@ props C01
+// @ props C01
 func lemma_Fixed32RoundTrip(b []byte, v uint32) {
 	r := AppendFixed32(b, v)
 	w, n := ConsumeFixed32(r[len(b):])
 	ensures(n == SizeFixed32() && n == len(r)-len(b) && w == v)
 }
 
-//@ props C01
+// @ props C01
 func lemma_Fixed64RoundTrip(b []byte, v uint64) {
 	r := AppendFixed64(b, v)
 	w, n := ConsumeFixed64(r[len(b):])
 	ensures(n == SizeFixed64() && n == len(r)-len(b) && w == v)
 }
 
-//@ props C01
+// @ props C01
 func lemma_TagWireRoundTrip(b []byte, num Number, typ Type) {
 	requires(1 <= num && 0 <= typ && typ <= 7)
 	r := AppendTag(b, num, typ)
@@ -446,7 +446,7 @@ func lemma_TagWireRoundTrip(b []byte, num Number, typ Type) {
 // lemma_SpecVarintInverse: a byte sequence that starts with the shortest
 // encoding of v parses (per the grammar) to exactly that length and value.
 //
-//@ props C01
+// @ props C01
 func lemma_SpecVarintInverse(s []byte, v uint64) {
 	requires(len(s) >= specVlen(v))
 	requires(specVarintAt(s, 0, v))
@@ -454,8 +454,8 @@ func lemma_SpecVarintInverse(s []byte, v uint64) {
 	ensures(specVarintVal(s, specVlen(v)) == v)
 }
 
-//@ props C01
-//@ mode int
+// @ props C01
+// @ mode int
 func lemma_BytesRoundTrip(b []byte, v []byte) {
 	requires(disjointFromTail(v, b))
 	r := AppendBytes(b, v)
@@ -465,8 +465,8 @@ func lemma_BytesRoundTrip(b []byte, v []byte) {
 	ensures(bytesEq(w, v))
 }
 
-//@ props C01
-//@ mode int
+// @ props C01
+// @ mode int
 func lemma_StringRoundTrip(b []byte, v string) {
 	r := AppendString(b, v)
 	lemma_SpecVarintInverse(r[len(b):], uint64(len(v)))
@@ -482,7 +482,7 @@ func lemma_StringRoundTrip(b []byte, v string) {
 // remaining nesting budget. (Mutually recursive with specGroupLen; the
 // recursion is well founded on (depth, len(b)).)
 //
-//@ opaque
+// @ opaque
 func specValueLen(num Number, typ Type, b []byte, depth int) int {
 	switch typ {
 	case VarintType:
@@ -515,7 +515,7 @@ func specValueLen(num Number, typ Type, b []byte, depth int) int {
 // including the end-group tag that must carry field number num:
 // a sequence of fields (tag, value) closed by a matching end tag.
 //
-//@ opaque
+// @ opaque
 func specGroupLen(num Number, b []byte, depth int) int {
 	tn := specTagLen(b)
 	if tn < 0 {
@@ -540,13 +540,13 @@ func specGroupLen(num Number, b []byte, depth int) int {
 	return tn + vn + rest
 }
 
-//@ props C02
-//@ mode int
-//@ abstract specVarintLen specVarintVal specTagLen specBytesLen
-//@ loop 1 invariant suffixOf(b, old(b)) && n0 == len(old(b))
-//@ loop 1 invariant imp(specGroupLen(num, b, depth) < 0, specGroupLen(num, old(b), depth) == specGroupLen(num, b, depth))
-//@ loop 1 invariant imp(specGroupLen(num, b, depth) >= 0, specGroupLen(num, old(b), depth) == n0-len(b)+specGroupLen(num, b, depth))
-//@ loop 1 decreases len(b)
+// @ props C02
+// @ mode int
+// @ abstract specVarintLen specVarintVal specTagLen specBytesLen
+// @ loop 1 invariant suffixOf(b, old(b)) && n0 == len(old(b))
+// @ loop 1 invariant imp(specGroupLen(num, b, depth) < 0, specGroupLen(num, old(b), depth) == specGroupLen(num, b, depth))
+// @ loop 1 invariant imp(specGroupLen(num, b, depth) >= 0, specGroupLen(num, old(b), depth) == n0-len(b)+specGroupLen(num, b, depth))
+// @ loop 1 decreases len(b)
 func contract_consumeFieldValueD(num Number, typ Type, b []byte, depth int) (n int) {
 	ensures(n == specValueLen(num, typ, b, depth))
 	ensures(n < 0 || n <= len(b))
@@ -556,9 +556,9 @@ func contract_consumeFieldValueD(num Number, typ Type, b []byte, depth int) (n i
 	return
 }
 
-//@ props C02
-//@ mode int
-//@ abstract specVarintLen specVarintVal specTagLen specBytesLen
+// @ props C02
+// @ mode int
+// @ abstract specVarintLen specVarintVal specTagLen specBytesLen
 func contract_ConsumeFieldValue(num Number, typ Type, b []byte) (n int) {
 	ensures(n == specValueLen(num, typ, b, DefaultRecursionLimit))
 	ensures(n < 0 || n <= len(b))
@@ -576,13 +576,13 @@ func specEndTagAt(b []byte, n, t int, num Number) bool {
 		b[n-t+specVlen(uint64(num)*8+4)-1]&0x7f != 0
 }
 
-//@ props C01 C02
-//@ mode int
-//@ abstract specVarintLen specVarintVal specTagLen specBytesLen
-//@ loop 1 invariant sameBase(b, old(b)) && len(b) <= n && n <= len(old(b)) && num >= 1
-//@ loop 1 invariant forall(0, len(b), func(i int) bool { return b[i] == old(b)[i] })
-//@ loop 1 invariant exists(1, 11, func(t int) bool { return specEndTagAt(old(b), n, t, num) && len(b) >= n-t+specVlen(uint64(num)*8+4) })
-//@ loop 1 decreases len(b)
+// @ props C01 C02
+// @ mode int
+// @ abstract specVarintLen specVarintVal specTagLen specBytesLen
+// @ loop 1 invariant sameBase(b, old(b)) && len(b) <= n && n <= len(old(b)) && num >= 1
+// @ loop 1 invariant forall(0, len(b), func(i int) bool { return b[i] == old(b)[i] })
+// @ loop 1 invariant exists(1, 11, func(t int) bool { return specEndTagAt(old(b), n, t, num) && len(b) >= n-t+specVlen(uint64(num)*8+4) })
+// @ loop 1 decreases len(b)
 func contract_ConsumeGroup(num Number, b []byte) (v []byte, n int) {
 	ensures(n == specValueLen(num, StartGroupType, b, DefaultRecursionLimit))
 	ensures(n < 0 || n <= len(b))
@@ -593,9 +593,9 @@ func contract_ConsumeGroup(num Number, b []byte) (v []byte, n int) {
 	return
 }
 
-//@ props C02
-//@ mode int
-//@ abstract specVarintLen specVarintVal specTagLen specBytesLen
+// @ props C02
+// @ mode int
+// @ abstract specVarintLen specVarintVal specTagLen specBytesLen
 func contract_ConsumeField(b []byte) (num Number, typ Type, n int) {
 	// a field is a tag followed by the value its wire type announces
 	ensures(imp(specTagLen(b) < 0, n == specTagLen(b)))
